@@ -404,10 +404,10 @@ def _phases(run, P):
 
 
 def _table(run, P):
-    """fuse_two_phases as a decision table, by symbolic evaluation over which of
+    """fuse_two_phases as a decision table, by abstract interpretation over terms over which of
     the two phases is present (any loop-free re-writing is understood)."""
-    from ..engine import symeval as se
-    run.rule("C16.table", "fuse_two_phases, case by case (symbolic evaluation): only one "
+    from ..engine import casetable as se
+    run.rule("C16.table", "fuse_two_phases, case by case (abstract interpretation over terms): only one "
              "phase present - that phase is returned; both present and their default "
              "successors differ - ValueError; both present - an ExecutionPhase of the "
              "common name and successor whose statements are the first result of "
